@@ -31,7 +31,7 @@ Fp  == 0..(P - 1)
 
 (* -------- field arithmetic -------- *)
 \* the multiplicative inverse modulo a prime m, by its defining property
-InvTab(m) == [a \in 1..(m - 1) |-> CHOOSE b \in 1..(m - 1) : (a * b) % m = 1]
+InvTab(m) == [aE \in 1..(m - 1) |-> CHOOSE bE \in 1..(m - 1) : (aE * bE) % m = 1]
 InvP == InvTab(P)
 InvN == InvTab(N)
 FInv(a) == InvP[a % P]                 \* a is not a multiple of P
@@ -47,8 +47,10 @@ Rhs(x) == LET xr == x % P
 OnCurveXY(x, y) == ((y % P) * (y % P)) % P = Rhs(x)
 OnCurve(pt) == pt = Inf \/ OnCurveXY(pt[1], pt[2])
 
-Affine == {pt : pt \in {q \in Fp \X Fp : OnCurveXY(q[1], q[2])}}
-Points == {pt : pt \in {Inf} \cup Affine}
+\* (bound variables here have names no extending module uses for a VARIABLE: TLC would otherwise treat
+\*  the definition as state-dependent and stop caching it)
+Affine == {ptE : ptE \in {xyE \in Fp \X Fp : OnCurveXY(xyE[1], xyE[2])}}
+Points == {ptE : ptE \in {Inf} \cup Affine}
 G == <<Gx, Gy>>
 
 (* -------- the group law -------- *)
@@ -86,7 +88,7 @@ SMul(k, Q) == IF k = 0 THEN Inf
                    IN IF k % 2 = 1 THEN Add(d, Q) ELSE d
 GMul(k) == SMul(k % N, G)
 \* the points in the order Inf, G, 2G, ... (N-1)G
-PtSeq == [i \in 1..N |-> SMul(i - 1, G)]
+PtSeq == [iE \in 1..N |-> SMul(iE - 1, G)]
 
 (* -------- recovering points from x -------- *)
 \* << even-y point, odd-y point >> or << >> when x is not the abscissa of a point
@@ -99,8 +101,10 @@ PointsForX(x) == LET ys == YsFor(x) IN
 Lifts == {-1, 0, 1}
 Lift(p, i, j) == IF p = Inf THEN Inf ELSE <<p[1] + i * P, p[2] + j * P>>
 
-Cyclic        == /\ Cardinality(Points) = N
-                 /\ {SMul(k, G) : k \in 0..(N - 1)} = Points
+\* (lemmas that are expensive take a parameter: TLC evaluates every constant definition without
+\*  parameters once at start-up, before its cache of constants is in place, which is very slow)
+Cyclic(n)     == /\ Cardinality(Points) = n
+                 /\ {SMul(k, G) : k \in 0..(n - 1)} = Points
                  /\ G \in Affine
 NonSingular   == (4 * ((((A * A) % P) * A) % P) + 27 * ((B * B) % P)) % P # 0
 Closure(p, q) == Add(p, q) \in Points /\ Neg(p) \in Points
@@ -139,6 +143,6 @@ PointsForXOk(x) == LET r == PointsForX(x) IN
                     /\ r[2] = Neg(r[1])
                     /\ {pt \in Affine : pt[1] = x} = {r[1], r[2]}
      /\ r = <<>> => {pt \in Affine : pt[1] = x} = {}
-InvTabOk == /\ \A a \in 1..(P - 1) : (a * InvP[a]) % P = 1
-            /\ \A a \in 1..(N - 1) : (a * InvN[a]) % N = 1
+InvTabOk(p, n) == /\ \A a \in 1..(p - 1) : (a * InvP[a]) % p = 1
+                  /\ \A a \in 1..(n - 1) : (a * InvN[a]) % n = 1
 =============================================================================
